@@ -268,6 +268,80 @@ func (g G) WitnessTree(rule string, alt int, ma map[string]int, par map[string]O
 	return cur
 }
 
+
+// Occurrences lists every place (rule, alternative, position) where sym is
+// referenced.
+func (g G) Occurrences(sym string) []Occ {
+	var res []Occ
+	for _, r := range g.Rules() {
+		for ai, alt := range g[r] {
+			for pi, e := range alt {
+				if e.Sym == sym {
+					res = append(res, Occ{r, ai, pi})
+				}
+			}
+		}
+	}
+	return res
+}
+
+// wrap puts node under the given occurrence of its rule (the other elements of
+// that alternative are expanded minimally).
+func (g G) wrap(node *Node, o Occ, ma map[string]int) *Node {
+	p := &Node{Rule: o.Rule, Alt: o.Alt}
+	p.Kids = make([]*Node, len(g[o.Rule][o.Alt]))
+	for i, e := range g[o.Rule][o.Alt] {
+		if e.Sym == "" {
+			continue
+		}
+		if i == o.Pos {
+			p.Kids[i] = node
+		} else {
+			p.Kids[i] = g.MinTree(e.Sym, ma)
+		}
+	}
+	return p
+}
+
+// WitnessTreesInContexts builds derivations of START that use alternative alt
+// of rule under every parent occurrence of the rule and every grandparent
+// occurrence of that parent (the rest of the way up follows par): a token kind
+// that the lexer only produces in some lexical contexts (a TIME after a
+// comparison) is realisable under some of them.
+func (g G) WitnessTreesInContexts(rule string, alt int, ma map[string]int, par map[string]Occ, reach map[string]bool) []*Node {
+	mk := func() *Node {
+		t := &Node{Rule: rule, Alt: alt}
+		t.Kids = make([]*Node, len(g[rule][alt]))
+		for i, e := range g[rule][alt] {
+			if e.Sym != "" {
+				t.Kids[i] = g.MinTree(e.Sym, ma)
+			}
+		}
+		return t
+	}
+	climb := func(cur *Node) *Node {
+		for cur.Rule != "START" {
+			cur = g.wrap(cur, par[cur.Rule], ma)
+		}
+		return cur
+	}
+	var res []*Node
+	for _, o1 := range g.Occurrences(rule) {
+		if !reach[o1.Rule] {
+			continue
+		}
+		n1 := g.wrap(mk(), o1, ma)
+		res = append(res, climb(n1))
+		for _, o2 := range g.Occurrences(o1.Rule) {
+			if !reach[o2.Rule] {
+				continue
+			}
+			res = append(res, climb(g.wrap(g.wrap(mk(), o1, ma), o2, ma)))
+		}
+	}
+	return res
+}
+
 // RandomTree derives a random sentence from sym. Beyond maxDepth the shortest
 // alternatives are used. force, when non-nil, is consulted first.
 func (g G) RandomTree(rng *rand.Rand, sym string, depth, maxDepth int, ma map[string]int, pEmpty float64) *Node {
